@@ -434,6 +434,274 @@ theorem stat_value [One P] [Mul P] (B : Backend Q P) (cfg : Cfg) (mode : Mode) (
       rw [← hvals, ← derefEntry_filter]
       simp [List.map_map, derefEntry, Function.comp_def]
 
+/-! ## Deterministic calls do not read the random generator -/
+
+/-- the call never draws from `np.random`: density-matrix mode, or prescribed outcomes, or no measurement -/
+def Det (mode : Mode) (c : Circuit) (mr : Option (List Int)) : Prop :=
+  mode = .dm ∨ mresTruthy mr = true ∨ c.numMeas = 0
+
+theorem numMeas_pos_of_meas (c : Circuit) (i : Nat) (t : Nat) (s : Option Int) (h : c.ops[i]? = some (.meas t s)) :
+    c.numMeas ≠ 0 := by
+  intro h0
+  have hmem : Op.meas t s ∈ c.ops := List.mem_of_getElem? h
+  have : Op.meas t s ∈ c.ops.filter Op.isMeas := List.mem_filter.mpr ⟨hmem, rfl⟩
+  unfold Circuit.numMeas at h0
+  rw [List.length_eq_zero_iff.mp h0] at this
+  cases this
+
+theorem getter_mres (cfg : Cfg) (f : Fields Q P) : (getter cfg f).1.mres = f.mres := by
+  unfold getter
+  cases f.st with
+  | none => rfl
+  | some q =>
+    simp only
+    cases f.form with
+    | qobj => rfl
+    | matrix => rfl
+    | garbage => rfl
+    | tensor => simp only; split <;> rfl
+
+/-- with prescribed outcomes the measurement does not look at the random stream -/
+theorem measureSv_det [Mul P] (B : Backend Q P) (cfg : Cfg) (c : Circuit) (k : Core Q P) (rng rng' : List Int)
+    (idx t : Nat) (store : Option Int) (ht : mresTruthy k.f.mres = true) :
+    measureSv B cfg c k rng idx t store = { measureSv B cfg c k rng' idx t store with rng := rng } := by
+  have hp : ∀ (f : Fields Q P) (r : List Int), mresTruthy f.mres = true →
+      pickOutcome f r = (match (f.mres.getD [])[f.mind]? with
+        | none => .error .index
+        | some i => .ok (i, { f with mind := f.mind + 1 }, r)) := by
+    intro f r h; unfold pickOutcome; rw [h]; rfl
+  have hgm := getter_mres cfg k.f
+  unfold measureSv
+  cases hg : getter cfg k.f with
+  | mk f e =>
+    rw [hg] at hgm
+    simp only at hgm
+    have hft : mresTruthy f.mres = true := by rw [hgm]; exact ht
+    cases e with
+    | some e => rfl
+    | none =>
+      simp only
+      cases f.st with
+      | none => rfl
+      | some q =>
+        simp only
+        by_cases htn : t ≥ c.nq
+        · simp only [htn, ↓reduceIte]
+        · simp only [htn, ↓reduceIte, hp f rng hft, hp f rng' hft]
+          cases (f.mres.getD [])[f.mind]? with
+          | none => rfl
+          | some i =>
+            simp only
+            cases pyIdx 2 i with
+            | none => rfl
+            | some o =>
+              simp only
+              cases store with
+              | none => rfl
+              | some sidx =>
+                simp only
+                cases k.bits with
+                | none => rfl
+                | some l =>
+                  simp only
+                  cases pySet l sidx i <;> rfl
+
+theorem measureSv_mres [Mul P] (B : Backend Q P) (cfg : Cfg) (c : Circuit) (k : Core Q P) (rng : List Int)
+    (idx t : Nat) (store : Option Int) : (measureSv B cfg c k rng idx t store).core.f.mres = k.f.mres := by
+  have hgm := getter_mres cfg k.f
+  have hpm : ∀ (f : Fields Q P) (r : List Int) (i : Int) (f' : Fields Q P) (r' : List Int),
+      pickOutcome f r = .ok (i, f', r') → f'.mres = f.mres := by
+    intro f r i f' r' h
+    unfold pickOutcome at h
+    split at h
+    · split at h
+      · cases h
+      · cases h; rfl
+    · split at h <;> (cases h; rfl)
+  unfold measureSv
+  cases hg : getter cfg k.f with
+  | mk f e =>
+    rw [hg] at hgm
+    simp only at hgm
+    cases e with
+    | some e => exact hgm
+    | none =>
+      simp only
+      cases f.st with
+      | none => exact hgm
+      | some q =>
+        simp only
+        by_cases htn : t ≥ c.nq
+        · simp only [htn, ↓reduceIte]; exact hgm
+        · simp only [htn, ↓reduceIte]
+          cases hpk : pickOutcome f rng with
+          | error e => exact hgm
+          | ok x =>
+            obtain ⟨i, f1, rng1⟩ := x
+            have h1 := hpm f rng i f1 rng1 hpk
+            simp only
+            cases pyIdx 2 i with
+            | none => exact h1.trans hgm
+            | some o =>
+              simp only
+              cases store with
+              | none => exact h1.trans hgm
+              | some sidx =>
+                simp only
+                cases k.bits with
+                | none => exact h1.trans hgm
+                | some l =>
+                  simp only
+                  cases pySet l sidx i <;> exact h1.trans hgm
+
+theorem coreStep_mres [Mul P] (B : Backend Q P) (cfg : Cfg) (mode : Mode) (c : Circuit) (k : Core Q P)
+    (rng : List Int) : (coreStep B cfg mode c k rng).core.f.mres = k.f.mres := by
+  unfold coreStep
+  cases hop : c.ops[k.f.opIndex]? with
+  | none => rfl
+  | some op =>
+    cases op with
+    | gate g =>
+      simp only
+      cases fires g k.bits with
+      | error e => rfl
+      | ok bv =>
+        cases bv with
+        | false => rfl
+        | true =>
+          simp only
+          cases k.f.st with
+          | none => rfl
+          | some q => simp only; split <;> rfl
+    | meas t store =>
+      simp only
+      cases mode with
+      | dm =>
+        simp only
+        cases k.f.st with
+        | none => rfl
+        | some q => simp only; split <;> rfl
+      | sv => exact measureSv_mres B cfg c _ rng _ t store
+
+/-- one step of a deterministic call: same result whatever the random stream, which is left untouched -/
+theorem coreStep_det [Mul P] (B : Backend Q P) (cfg : Cfg) (mode : Mode) (c : Circuit) (k : Core Q P)
+    (rng rng' : List Int) (hd : Det mode c k.f.mres) :
+    coreStep B cfg mode c k rng = { coreStep B cfg mode c k rng' with rng := rng } := by
+  unfold coreStep
+  cases hop : c.ops[k.f.opIndex]? with
+  | none => rfl
+  | some op =>
+    cases op with
+    | gate g =>
+      simp only
+      cases fires g k.bits with
+      | error e => rfl
+      | ok bv =>
+        cases bv with
+        | false => rfl
+        | true =>
+          simp only
+          cases k.f.st with
+          | none => rfl
+          | some q => simp only; split <;> rfl
+    | meas t store =>
+      simp only
+      cases mode with
+      | dm =>
+        simp only
+        cases k.f.st with
+        | none => rfl
+        | some q => simp only; split <;> rfl
+      | sv =>
+        have htruthy : mresTruthy k.f.mres = true := by
+          rcases hd with h | h | h
+          · cases h
+          · exact h
+          · exact absurd h (numMeas_pos_of_meas c _ t store hop)
+        exact measureSv_det B cfg c _ rng rng' _ t store htruthy
+
+theorem coreRunLoop_det [Mul P] (B : Backend Q P) (cfg : Cfg) (mode : Mode) (c : Circuit) :
+    ∀ (n : Nat) (k : Core Q P) (rng rng' : List Int), Det mode c k.f.mres →
+      coreRunLoop B cfg mode c n k rng = { coreRunLoop B cfg mode c n k rng' with rng := rng } := by
+  intro n
+  induction n with
+  | zero => intro k rng rng' _; rfl
+  | succ n ih =>
+    intro k rng rng' hd
+    have hs := coreStep_det B cfg mode c k rng rng' hd
+    have hm := coreStep_mres B cfg mode c k rng'
+    unfold coreRunLoop
+    simp only
+    rw [hs]
+    generalize coreStep B cfg mode c k rng' = o at hm ⊢
+    cases herr : o.err with
+    | some e => simp only [herr]
+    | none =>
+      by_cases hst : o.core.f.st.isNone
+      · simp only [herr, hst, ↓reduceIte]
+      · simp only [herr, hst, Bool.false_eq_true, ↓reduceIte]
+        rw [ih o.core rng o.rng (by rw [hm]; exact hd)]
+
+/-- **A deterministic `run` does not depend on the random generator and leaves it untouched.** -/
+theorem coreRun_det [One P] [Mul P] (B : Backend Q P) (cfg : Cfg) (mode : Mode) (c : Circuit)
+    (bits0 : Option (List Int)) (st : Q) (mr : Option (List Int)) (rng rng' : List Int) (hd : Det mode c mr) :
+    (coreRun B cfg mode c bits0 st mr rng).res = (coreRun B cfg mode c bits0 st mr rng').res ∧
+    (coreRun B cfg mode c bits0 st mr rng).bits = (coreRun B cfg mode c bits0 st mr rng').bits ∧
+    (coreRun B cfg mode c bits0 st mr rng).rng = rng := by
+  have h := coreRunLoop_det B cfg mode c c.ops.length ⟨bits0, fields0 st mr⟩ rng rng' hd
+  unfold coreRun
+  simp only
+  rw [h]
+  generalize coreRunLoop B cfg mode c c.ops.length ⟨bits0, fields0 st mr⟩ rng' = o
+  cases herr : o.err with
+  | some e => simp only [herr]; exact ⟨trivial, trivial, trivial⟩
+  | none =>
+    simp only [herr]
+    cases hg : getter cfg o.core.f with
+    | mk f e => cases e <;> simp only <;> exact ⟨trivial, trivial, trivial⟩
+
+theorem records_det (mode : Mode) (c : Circuit) : ∀ r ∈ records c.numMeas, Det mode c (some r) := by
+  intro r hr
+  by_cases h0 : c.numMeas = 0
+  · exact Or.inr (Or.inr h0)
+  · right; left
+    have := (records_isRecord c r hr).1
+    cases r with
+    | nil => simp at this; exact absurd this.symm h0
+    | cons i r => rfl
+
+/-- **`run_statistics` never reads the random generator.** -/
+theorem coreStatV_det [One P] [Mul P] (B : Backend Q P) (cfg : Cfg) (mode : Mode) (c : Circuit)
+    (bits0 : Option (List Int)) (st : Q) :
+    ∀ (recs : List (List Int)) (rng rng' : List Int), (∀ r ∈ recs, Det mode c (some r)) →
+      (coreStatV B cfg mode c bits0 st recs rng).1 = (coreStatV B cfg mode c bits0 st recs rng').1 ∧
+      (coreStatV B cfg mode c bits0 st recs rng).2 = rng := by
+  intro recs
+  induction recs with
+  | nil => intro rng rng' _; exact ⟨rfl, rfl⟩
+  | cons r rs ih =>
+    intro rng rng' hd
+    obtain ⟨h1, h2, h3⟩ := coreRun_det B cfg mode c bits0 st (some r) rng rng' (hd r (List.mem_cons_self ..))
+    obtain ⟨_, _, h3'⟩ := coreRun_det B cfg mode c bits0 st (some r) rng' rng (hd r (List.mem_cons_self ..))
+    unfold coreStatV
+    rw [← h1, ← h2, h3, h3']
+    cases (coreRun B cfg mode c bits0 st (some r) rng).res with
+    | error e => exact ⟨rfl, rfl⟩
+    | ok qp =>
+      obtain ⟨q, p⟩ := qp
+      simp only
+      obtain ⟨i1, i2⟩ := ih rng rng' (fun x hx => hd x (List.mem_cons_of_mem _ hx))
+      obtain ⟨_, i2'⟩ := ih rng' rng (fun x hx => hd x (List.mem_cons_of_mem _ hx))
+      cases hcs : coreStatV B cfg mode c bits0 st rs rng with
+      | mk a b =>
+        cases hcs' : coreStatV B cfg mode c bits0 st rs rng' with
+        | mk a' b' =>
+          rw [hcs, hcs'] at i1
+          rw [hcs] at i2
+          simp only at i1 i2
+          subst i1 i2
+          cases a <;> exact ⟨rfl, rfl⟩
+
 /-! ## No aliasing between results -/
 
 /-- the list objects a returned result refers to -/
